@@ -35,7 +35,8 @@ pub fn gen_case(property: &str, rng: &mut Rng, tier_thorough: bool) -> Case {
         "C16" => gen::gen_select(rng),
         "C17" => gen::gen_stdin(rng, tier_thorough),
         "C19" => match rng.below(10) {
-            0..=1 => gen::gen_c19_canonical(rng),
+            0 => gen::gen_c19_canonical(rng),
+            1 => gen::gen_c19_spellings(rng),
             2..=5 => gen::gen_status(rng),
             _ => gen::gen_write(rng),
         },
